@@ -16,6 +16,16 @@ class FnView(object):
     self.cfg = CFG(self.fi.node)
     self._calls = None
 
+  @classmethod
+  def of(cls, repo, fi):
+    """view of a function given as FuncInfo (e.g. a method of a flattened class)."""
+    v = cls.__new__(cls)
+    v.repo = repo
+    v.fi = fi
+    v.cfg = CFG(fi.node)
+    v._calls = None
+    return v
+
   def all_calls(self):
     """[(cfg node, Call)] in source order; lambdas are entered, nested defs
     are not."""
